@@ -105,6 +105,7 @@ type Exec struct {
 	rangeConds []rangeCond
 	noRange  bool
 	dlog     []string
+	ufUse    int // semantic library functions left uninterpreted on this path (models may be unrealisable)
 }
 
 func (ex *Exec) newObj(v Value, t types.Type) *Object {
